@@ -77,7 +77,7 @@ type vC34Mon struct {
 	leftNotified, joinNotified [4]bool // a node-left / node-join notification naming the node was received
 	leftOpen, joinedOpen       [4]bool // NodeLeft / NodeJoined was emitted and the opposite event (notification or emission) has not happened since
 	lastOut                    [4]int  // last emitted event for the node: 0 none, 1 NodeLeft, 2 NodeJoined
-	wantLeft                   [4]bool // a departure was notified while the node was not already reported as left, and it was not reported yet
+	wantLeft                   [4]bool // a departure was notified while the node was not (still) reported as left, and it was not reported yet
 	startSeen, completeSeen    [4]bool // by epoch (1..3)
 	leftLatest, joinLatest     int     // the most recently started (first-seen) node-left / node-join rebalance epoch, 0 = none
 }
@@ -106,10 +106,10 @@ var vC34_invNames = [vC34_nInv]string{
 	"invariant: once a node-join epoch was seen every pending arrival has an epoch",
 	"invariant: a pending departure is not in the NodeLeft filter and a pending arrival is not in the NodeJoined filter",
 	"invariant: no departure stays pending once the latest node-left epoch has completed (same for arrivals)",
-	"invariant: the local node is never a pending arrival nor in the NodeJoined filter",
+	"invariant: the local node is never pending (arrival or departure) nor in a filter",
 	"invariant: pending departures / arrivals were notified",
-	"invariant: a node reported and not yet superseded by the opposite event is in the corresponding filter",
-	"invariant: a node whose last report is NodeLeft is in the NodeLeft filter, a node never reported is not",
+	"invariant: a node is in the NodeLeft filter exactly while its NodeLeft is not superseded by a join notification / NodeJoined; a NodeJoined not yet superseded is in the NodeJoined filter",
+	"invariant: a node in the NodeLeft filter was last reported as left",
 	"invariant: a departure that still has to be reported is pending",
 	"invariant: the monitor's epochs are the ones the cluster recorded",
 }
@@ -146,16 +146,16 @@ func vC34_inv(x *cluster, m *vC34Mon) [vC34_nInv]bool {
 		if (leftSettled && lt) || (joinSettled && jt) {
 			r[5] = false
 		}
-		if c == 0 && (jt || jf) {
+		if c == 0 && (jt || jf || lt || lf) {
 			r[6] = false
 		}
 		if (lt && !m.leftNotified[c]) || (jt && !m.joinNotified[c]) {
 			r[7] = false
 		}
-		if (m.leftOpen[c] && !lf) || (m.joinedOpen[c] && !jf) {
+		if m.leftOpen[c] != lf || (m.joinedOpen[c] && !jf) {
 			r[8] = false
 		}
-		if (m.lastOut[c] == 1 && !lf) || (m.lastOut[c] == 0 && lf) {
+		if lf && m.lastOut[c] != 1 {
 			r[9] = false
 		}
 		if c != 0 && m.wantLeft[c] && !lt {
@@ -270,7 +270,7 @@ func vC34_notify(x *cluster, m *vC34Mon, k int, kind int) {
 	r := vChoose("reason", 3)
 	ts := int64(k+1) * 1000000
 	reason, rnode := vC34_reasons[r], vC34_names[n]
-	newDeparture, rejoined := -1, false
+	newDeparture := -1
 	// the node / epoch are dispatched over their (small) domains so the handlers run on concrete map keys
 	for c := 0; c < 4; c++ {
 		if n != c {
@@ -284,10 +284,9 @@ func vC34_notify(x *cluster, m *vC34Mon, k int, kind int) {
 		case vC34_left:
 			m.leftNotified[c] = true
 			m.joinedOpen[c] = false
-			if m.lastOut[c] != 1 {
+			if c != 0 && !m.leftOpen[c] { // not currently reported as left: a new departure (also after a rejoin)
 				m.wantLeft[c] = true
 				newDeparture = c
-				rejoined = m.lastOut[c] == 2 && x.nodeLeftEventsFilter.Contains(vC34_names[c])
 			}
 			x.trackNodeLeftEvent(events.NodeLeftEvent{NodeLeft: vC34_names[c], Timestamp: ts})
 		case vC34_overdue:
@@ -368,12 +367,7 @@ func vC34_notify(x *cluster, m *vC34Mon, k int, kind int) {
 		for i := 1; i < 4; i++ {
 			if newDeparture == i {
 				recorded := !m.wantLeft[i] || vC34_in(x.nodeLeftTimestamps, vC34_names[i])
-				if rejoined {
-					// known finding C34-2: the NodeLeft filter is never cleared, so this case is kept apart from the general rule
-					vAssert(recorded, "a node that was reported as left, then as joined, and leaves again is recorded as a new departure")
-				} else {
-					vAssert(recorded, "a departure notified while the node is not reported as left is recorded (or reported at once)")
-				}
+				vAssert(recorded, "a departure notified while the node is not reported as left is recorded (or reported at once)")
 				if !recorded {
 					m.wantLeft[i] = false // reported above; do not let it fail the remaining obligations as well
 				}
@@ -388,7 +382,7 @@ func vC34_notify(x *cluster, m *vC34Mon, k int, kind int) {
 	}
 }
 
-// witness history for the re-departure finding: p leaves (reported on timeout), rejoins (reported after its epoch), leaves again
+// re-departure (failed before fix b6ef16c): p leaves (reported on timeout), rejoins (reported after its epoch), leaves again
 func vC34_redeparture() {
 	x := vC34_newCluster(4)
 	c := vChoose("peer", 3) + 1
